@@ -21,7 +21,7 @@ func init() {
 			"R2: in both backends every record stored/encoded by Create, Put, PutMany and CasByVersion got its Version from ulidutils.NewID() by a store that dominates the write with no other write to the field in between; NewID is the string form of ulid.Make() (process-wide locked monotonic source). " +
 			"R3 (redis): Create's only write command is SETNX and it succeeds only on SETNX's ok edge; CasByVersion reads through the Tx and writes in the MULTI/EXEC pipeline of a WATCH on the same key, guarded by version equality. " +
 			"R4 (redis): a lost optimistic transaction (redis.TxFailedErr) is reported as ErrConflict. " +
-			"R5: version mismatch -> ErrConflict, missing key -> ErrNotExist, present key -> ErrExist on the deciding edges of both backends (loser outcomes). R6: Put returns the record it wrote itself (not one read back). R7: PutMany stores every record of the batch. R4 also: after a lost WATCH/EXEC transaction the key is read again and the error of that read reaches the result (a transaction is also lost when the key was deleted/expired: the answer is then ErrNotExist, not ErrConflict). R8: the in-memory table stores Record.Copy() of what it is given and hands out copies (no caller can write memory the table holds). R8 also: Record.Copy() shares no memory with its receiver (every slice/pointer/map field of the result is nil or freshly allocated on every path on which the receiver's field is not nil). R10: a record's value and TTL are written by one redis command (no EXPIRE/PEXPIRE/EXPIREAT/PERSIST/SetArgs/GETEX anywhere in the backend: a TTL written by a command of its own - also inside a pipeline - can land on another writer's value). R11: every redis command addresses the mapped key (the rule of C03.R10). R12 (in-memory): every acquisition of the service mutex is released on every path to a return (an Unlock or a deferred Unlock on the path): an operation that returns with the mutex held ends every later operation. R13 (redis): PutMany reports success only after a pass over the whole batch that writes every record - a loop left over its exhaustion edge that writes the element on every round, record by record or into the argument list of the one MSET, which is then sent (a batch command for a prefix of the batch, or a pass that ends early, leaves records with their old value and old version).",
+			"R5: version mismatch -> ErrConflict, missing key -> ErrNotExist, present key -> ErrExist on the deciding edges of both backends (loser outcomes). R6: Put returns the record it wrote itself (not one read back). R7: PutMany stores every record of the batch. R4 also: after a lost WATCH/EXEC transaction the key is read again and the error of that read reaches the result (a transaction is also lost when the key was deleted/expired: the answer is then ErrNotExist, not ErrConflict). R8: the in-memory table stores Record.Copy() of what it is given and hands out copies (no caller can write memory the table holds). R8 also: Record.Copy() hands on every field of every record (no path to its return leaves a field of the result unassigned while the receiver's may be set, and what is assigned comes from that field) and shares no memory with its receiver (every slice/pointer/map field of the result is nil or freshly allocated on every path on which the receiver's field is not nil). R10: a record's value and TTL are written by one redis command (no EXPIRE/PEXPIRE/EXPIREAT/PERSIST/SetArgs/GETEX anywhere in the backend: a TTL written by a command of its own - also inside a pipeline - can land on another writer's value). R11: every redis command addresses the mapped key (the rule of C03.R10). R12 (in-memory): every acquisition of the service mutex is released on every path to a return (an Unlock or a deferred Unlock on the path): an operation that returns with the mutex held ends every later operation. R13 (redis): PutMany reports success only after a pass over the whole batch that writes every record - a loop left over its exhaustion edge that writes the element on every round, record by record or into the argument list of the one MSET, which is then sent (a batch command for a prefix of the batch, or a pass that ends early, leaves records with their old value and old version).",
 		NotDecided: "linearizability of concurrent histories; uniqueness of ULIDs and atomicity of SETNX / WATCH-EXEC inside the redis server (trusted).",
 		Trusted:    []string{"go-redis: SetNX is atomic, Watch returns redis.TxFailedErr when EXEC aborts", "oklog/ulid: ulid.Make() is safe for concurrent use and monotonic"},
 	})
@@ -37,7 +37,7 @@ func init() {
 			"R6: every SET/SETNX gets the TTL computed from the ExpiresAt of the record being written (what is stored is what was given). " +
 			"R7: every stored record gets a fresh version (C02.R2). R8: the in-memory ListKeys compiles the glob without separators (as redis MATCH has none). In R1 every ErrConflict/ErrNotExist return of CasByVersion sits on its deciding edge (no class is returned from anywhere else). " +
 			"R9: the redis key mapping is injective - the storage key reaches the redis key only through prefixing (concatenation, Sprintf with a constant %s/%v/%q format); slicing, trimming, folding, cleaning or a merge of alternatives is a lossy step (each is its own obligation). R10: the key/pattern argument of every redis command is the mapped key. " +
-			"R11: a command taking a caller-sized list (MGET, MSET) is issued only under a guard that the list is non-empty (the server rejects the empty form, the contract answers an empty batch with an empty result). R12: the in-memory table stores and hands out copies of records (Record.Copy()), so that Get returns what was last WRITTEN, not what the writer or another reader did to its buffer afterwards. R1 also: the in-memory CasByVersion reports ErrConflict only after the expiry decision (an expired record that was not purged yet is a missing key). R3 also: every decode of a stored record starts from an empty message (proto.Unmarshal, or a merging decode into a message that is local to the call and used once: proto3 leaves empty values and absent expiries off the wire). R13 (redis): PutMany reports success only after a pass over the whole batch that writes every record (the rule of C02.R13: Get must return what was last written). R14: arithmetic on a saturating time difference (Time.Sub, time.Until: +-MaxInt64 ns beyond ~292 years) stays inside int64 - every +, -, * on such a value is bounded by the guards that dominate it (interval evaluation); otherwise a far-future expiration wraps to a negative TTL, is clamped to the minimum and the record is gone in redis while the in-memory backend keeps it.",
+			"R11: a command taking a caller-sized list (MGET, MSET) is issued only under a guard that the list is non-empty (the server rejects the empty form, the contract answers an empty batch with an empty result). R12: the in-memory table stores and hands out copies of records (Record.Copy()), so that Get returns what was last WRITTEN, not what the writer or another reader did to its buffer afterwards. Copy() hands on every field of every record (a lifetime dropped for some records keeps them for good in one backend only). R1 also: the in-memory CasByVersion reports ErrConflict only after the expiry decision (an expired record that was not purged yet is a missing key). R3 also: every decode of a stored record starts from an empty message (proto.Unmarshal, or a merging decode into a message that is local to the call and used once: proto3 leaves empty values and absent expiries off the wire). R13 (redis): PutMany reports success only after a pass over the whole batch that writes every record (the rule of C02.R13: Get must return what was last written). R14: arithmetic on a saturating time difference (Time.Sub, time.Until: +-MaxInt64 ns beyond ~292 years) stays inside int64 - every +, -, * on such a value is bounded by the guards that dominate it (interval evaluation); otherwise a far-future expiration wraps to a negative TTL, is clamped to the minimum and the record is gone in redis while the in-memory backend keeps it.",
 		NotDecided: "equality of results for all operation sequences. Known value-level divergences outside these rules: redis turns an empty value into nil (equal under bytes.Equal); the glob dialects of redis MATCH and gobwas/glob differ beyond * and ? ({a,b}, [!a]).",
 	})
 	register(&Check{
@@ -47,7 +47,7 @@ func init() {
 		Technique: "static analysis: path queries requiring an expiry decision edge between every table lookup and any conclusion drawn from it (sibling contradiction rule), phi/guard analysis of the parked waiter's timer, argument provenance of redis TTLs (go/ssa)",
 		Explanation: "R1 (in-memory): every lookup of the record table is followed, before it can influence a result or a mutation, by the expiry decision (no-expiry / not-before-now / expired edges); the expired edge deletes the record and notifies its waiters; ranges over the table filter through such a lookup. " +
 			"R2 (in-memory): the parked WaitForVersionChange has a timer case derived from the record's ExpiresAt on every path where ExpiresAt is non-nil. " +
-			"R3 (redis): every SET/SETNX receives expiration(record.ExpiresAt, time.Now()) of the record being written. R4: expiration maps nil to 0 and clamps a non-nil expiry to a positive TTL. R5: the MSET batch only takes records whose ExpiresAt is nil. R7: the in-memory table stores and hands out copies of records, so the stored *time.Time cannot be changed from outside (a live record dropped early / an expired one kept alive). R8: value and TTL are written by one command (the rule of C02.R10; SetArgs' ExpireAt has second resolution). R9 (in-memory): a record leaves the table only on the expired edge of the expiry decision (or in Delete, when found), and only after the table was looked up under the same key in the same lock acquisition - a delete separated from its decision drops whatever record is stored now, also one that does not expire. R10 (in-memory): every expiry decision compares with a clock reading taken after the goroutine last parked (no path from a blocking select / receive / Sleep to the decision avoids the clock read; moments handed to helpers are followed to the call sites). R11: arithmetic on a saturating time difference stays inside int64 (the rule of C03.R14: a wrapped TTL / timer duration drops a record whose expiration lies in the far future).",
+			"R3 (redis): every SET/SETNX receives expiration(record.ExpiresAt, time.Now()) of the record being written. R4: expiration maps nil to 0 and clamps a non-nil expiry to a positive TTL. R5: the MSET batch only takes records whose ExpiresAt is nil. R7: the in-memory table stores and hands out copies of records, so the stored *time.Time cannot be changed from outside (a live record dropped early / an expired one kept alive). The copy keeps the expiry of every record: no path of Copy() leaves ExpiresAt unassigned while the receiver's is set. R8: value and TTL are written by one command (the rule of C02.R10; SetArgs' ExpireAt has second resolution). R9 (in-memory): a record leaves the table only on the expired edge of the expiry decision (or in Delete, when found), and only after the table was looked up under the same key in the same lock acquisition - a delete separated from its decision drops whatever record is stored now, also one that does not expire. R10 (in-memory): every expiry decision compares with a clock reading taken after the goroutine last parked (no path from a blocking select / receive / Sleep to the decision avoids the clock read; moments handed to helpers are followed to the call sites). R11: arithmetic on a saturating time difference stays inside int64 (the rule of C03.R14: a wrapped TTL / timer duration drops a record whose expiration lies in the far future).",
 		NotDecided: "that the redis server honours the TTL; clock effects; 'never dropped early' as a timing statement.",
 	})
 	register(&Check{
@@ -58,7 +58,8 @@ func init() {
 		Explanation: "W1: after every overwrite or delete of a record every path to the unlock passes the notify routine with the same key (the insert of an absent key is exempt: no waiter can be registered for an absent key). " +
 			"W2: the version check and the registration of the waiter are one critical section on data looked up in it. W3: the waiter parks with the mutex released on the channel of its entry. " +
 			"W4: a cancelling waiter decrements under the mutex and tears the entry down only as last waiter and only if the entry registered now is still the one it registered on. " +
-			"W5: nil is returned only on the version-differs edge, ErrNotExist only on the absent edge, ctx.Err() only in the ctx.Done() case (both backends). W6: the notify routine closes the channel and forgets the entry together. W9: a waiter that goes around its loop registers again only after its previous registration was withdrawn (count decremented under the identity test) or consumed by a notification / removal of the entry. V1: every write stores a freshly generated version in both backends (the rules of C02.R2: a write under the old version is a change no waiter can see). W5 also: the redis waiter decides 'changed' on a record its poll read without error on this very iteration. W10: every acquisition of the service mutex is released on every path to a return - a waiter that gives up (or any operation) and leaves with the mutex held blocks every writer and every other waiter for ever. W11: the waiter decides 'expired' against a clock reading taken after it was woken (the rule of C06.R10: with a moment read before the park the expired record looks alive, the waiter re-registers and spins instead of returning ErrNotExist).",
+			"W5: nil is returned only on the version-differs edge, ErrNotExist only on the absent edge, ctx.Err() only in the ctx.Done() case (both backends). W6: the notify routine closes the channel and forgets the entry together. W9: a waiter that goes around its loop registers again only after its previous registration was withdrawn (count decremented under the identity test) or consumed by a notification / removal of the entry. V1: every write stores a freshly generated version in both backends (the rules of C02.R2: a write under the old version is a change no waiter can see). W5 also: the redis waiter decides 'changed' on a record its poll read without error on this very iteration. W10: every acquisition of the service mutex is released on every path to a return - a waiter that gives up (or any operation) and leaves with the mutex held blocks every writer and every other waiter for ever. W11: the waiter decides 'expired' against a clock reading taken after it was woken (the rule of C06.R10: with a moment read before the park the expired record looks alive, the waiter re-registers and spins instead of returning ErrNotExist)." +
+			"W12: the in-memory table stores and hands out only Record.Copy(), and Copy() shares nothing with its receiver and hands on every field (a shared expiry or value changes the record without a write: no new version, no notify, the waiter's armed expiry timer is stale). ",
 		NotDecided: "promptness bounds; the 2-100 ms polling of the redis backend.",
 	})
 }
@@ -311,6 +312,9 @@ func runC07(c *Ctx) {
 	c.inmemRegistrationBalance(im, "C07.W9")
 	c.inmemExitsUnlocked(im, "C07.W10")
 	c.inmemFreshClock(im, "C07.W11", im.storage["WaitForVersionChange"])
+	// the stored record is the table's own: a value or a lifetime the writer can still reach changes the record without a
+	// write, i.e. without a notify - the waiter's armed expiry timer and "the record it checked" are then stale
+	c.inmemNoSharing(im, "C07.W12")
 	// a change the waiter is to notice is a change of the version: every write stores a fresh one
 	c.inmemFreshVersions(im, "C07.V1")
 	c.redisFreshVersions(rd, "C07.V1")
